@@ -638,7 +638,17 @@ func c11r3(c *Ctx) {
 }
 
 func c11r4(c *Ctx) {
-	rhpDispatch := c.P.Fn("rhp", "Server", "handleHostStream")
+	// the rhp dispatcher: the Server method that reads the RPC id
+	readID := c.P.FuncObj("rhp4", "ReadID")
+	var rhpDispatch *ir.Func
+	for _, f := range c.P.MethodsOf("rhp", "Server") {
+		if len(f.CallsTo(false, readID)) > 0 {
+			rhpDispatch = f
+		}
+	}
+	if rhpDispatch == nil {
+		ir.Fail("rhp dispatcher (Server method calling rhp4.ReadID) not found")
+	}
 	for _, f := range []*ir.Func{dispatchFn(c), rhpDispatch} {
 		g := f.Graph()
 		c.VisitGraph(f)
